@@ -47,6 +47,16 @@ func createLockFile(name string, perm os.FileMode) (LockFile, bool, error) {
 			_ = f.Close()
 			continue
 		}
+		if lockedInfo.Size() != 0 {
+			// The file was created above, but another process acquired it in the meantime
+			// and didn't release it properly.
+			acquiredExisting = true
+		}
+		// Mark the lock file as acquired.
+		if _, err := f.WriteAt([]byte{1}, 0); err != nil {
+			_ = f.Close()
+			return nil, false, err
+		}
 		return &osLockFile{f, name}, acquiredExisting, nil
 	}
 }
